@@ -6,6 +6,8 @@
 #include <fcppt/container/buffer/append_from_opt.hpp>
 #include <fcppt/container/buffer/object_impl.hpp>
 #include <fcppt/container/buffer/read_from.hpp>
+#include <fcppt/container/buffer/read_from_opt.hpp>
+#include <fcppt/container/dynamic_array_impl.hpp>
 #include <fcppt/container/buffer/to_raw_vector.hpp>
 #include <fcppt/container/raw_vector/comparison.hpp>
 #include <fcppt/container/raw_vector/object_impl.hpp>
@@ -16,7 +18,9 @@
 
 #include <cstddef>
 #include <exception>
+#include <forward_list>
 #include <iterator>
+#include <list>
 #include <map>
 #include <memory>
 #include <optional>
@@ -84,7 +88,8 @@ using rv_t = fcppt::container::raw_vector::object<int, talloc<int>>;
 using buf_t = fcppt::container::buffer::object<int, talloc<int>>;
 using ref_t = std::vector<int>;
 
-// ---- a strict input iterator (single pass, category input_iterator_tag) over a list of ints
+// ---- a strictly single-pass input iterator (category input_iterator_tag) over a list of ints: all copies share one
+// cursor, like std::istream_iterator; a second pass over the "same" range finds it exhausted
 struct in_it
 {
   using iterator_category = std::input_iterator_tag;
@@ -93,23 +98,51 @@ struct in_it
   using pointer = int const *;
   using reference = int const &;
   std::vector<int> const *src;
-  std::size_t pos;
-  reference operator*() const { return (*src)[pos]; }
-  pointer operator->() const { return &(*src)[pos]; }
+  std::size_t *cur; // nullptr: the end iterator
+  bool at_end() const { return cur == nullptr || *cur >= src->size(); }
+  reference operator*() const { return (*src)[*cur]; }
+  pointer operator->() const { return &(*src)[*cur]; }
   in_it &operator++()
   {
-    ++pos;
+    ++*cur;
     return *this;
   }
   in_it operator++(int)
   {
     in_it r{*this};
-    ++pos;
+    ++*cur;
     return r;
   }
-  friend bool operator==(in_it const &a, in_it const &b) { return a.pos == b.pos; }
-  friend bool operator!=(in_it const &a, in_it const &b) { return a.pos != b.pos; }
+  friend bool operator==(in_it const &a, in_it const &b) { return a.at_end() == b.at_end(); }
+  friend bool operator!=(in_it const &a, in_it const &b) { return a.at_end() != b.at_end(); }
 };
+
+bool range_kind(std::string const &k) { return k == "fwd" || k == "ptr" || k == "fl" || k == "bidi" || k == "inp"; }
+
+// calls f(first, last) with the range xs presented through iterators of the given kind
+template <typename F>
+void with_range(std::string const &kind, std::vector<int> const &xs, F const &f)
+{
+  if (kind == "fwd")
+    f(xs.begin(), xs.end());
+  else if (kind == "ptr")
+    f(xs.data(), xs.data() + xs.size());
+  else if (kind == "fl")
+  {
+    std::forward_list<int> const l(xs.begin(), xs.end());
+    f(l.begin(), l.end());
+  }
+  else if (kind == "bidi")
+  {
+    std::list<int> const l(xs.begin(), xs.end());
+    f(l.begin(), l.end());
+  }
+  else
+  {
+    std::size_t cur = 0;
+    f(in_it{&xs, &cur}, in_it{&xs, nullptr});
+  }
+}
 
 constexpr std::size_t NV = 3, NB = 2;
 
@@ -305,6 +338,15 @@ std::string handle_inner(std::vector<std::string> const &t)
     construct_nulls();
     return op == "end" ? r : "reset";
   }
+  if (op == "dump" && t.size() == 1)
+  {
+    std::string r;
+    for (std::size_t i = 0; i < NV; ++i)
+      r += show_vec(i) + " ";
+    for (std::size_t i = 0; i < NB; ++i)
+      r += show_buf(i) + " ";
+    return r + "live=" + std::to_string(ledger().live.size()) + " alloc=" + (ledger().bad ? "BAD" : "ok");
+  }
   if (op == "readchars" && t.size() == 3)
   {
     std::size_t const count = static_cast<std::size_t>(vh::to_ull(t[1]));
@@ -327,11 +369,17 @@ std::string handle_inner(std::vector<std::string> const &t)
   {
     if (!reg(t[1], NV, r))
       return "bad-op";
-    std::string const &k = t[2];
+    // a leading `a` selects the overload that takes the allocator explicitly
+    bool const with_alloc = t[2].size() > 1 && t[2][0] == 'a';
+    std::string const k = with_alloc ? t[2].substr(1) : t[2];
+    talloc<int> const al{};
     if (k == "default" && t.size() == 3)
     {
       st().vec[r].reset();
-      st().vec[r].emplace();
+      if (with_alloc)
+        st().vec[r].emplace(al);
+      else
+        st().vec[r].emplace();
       st().ref[r] = ref_t{};
     }
     else if (k == "count" && t.size() == 5)
@@ -339,23 +387,37 @@ std::string handle_inner(std::vector<std::string> const &t)
       std::size_t const n = static_cast<std::size_t>(vh::to_ull(t[3]));
       int const x = static_cast<int>(vh::to_ll(t[4]));
       st().vec[r].reset();
-      st().vec[r].emplace(n, x);
+      if (with_alloc)
+        st().vec[r].emplace(n, x, al);
+      else
+        st().vec[r].emplace(n, x);
       st().ref[r] = ref_t(n, x);
     }
-    else if (k == "range" && t.size() == 5 && (t[3] == "fwd" || t[3] == "inp"))
+    else if (k == "range" && t.size() == 5 && range_kind(t[3]))
     {
       std::vector<int> const xs = ints(t[4]);
       st().vec[r].reset();
-      if (t[3] == "fwd")
+      with_range(t[3], xs, [&](auto const b, auto const e) {
+        if (with_alloc)
+          st().vec[r].emplace(b, e, al);
+        else
+          st().vec[r].emplace(b, e);
+      });
+      with_range(t[3], xs, [&](auto const b, auto const e) { st().ref[r] = ref_t(b, e); });
+    }
+    else if (k == "il" && t.size() == 4 && with_alloc)
+    {
+      std::vector<int> const xs = ints(t[3]);
+      st().vec[r].reset();
+      switch (xs.size())
       {
-        st().vec[r].emplace(xs.begin(), xs.end());
-        st().ref[r] = ref_t(xs.begin(), xs.end());
+      case 0: st().vec[r].emplace(std::initializer_list<int>{}, al); break;
+      case 1: st().vec[r].emplace(std::initializer_list<int>{xs[0]}, al); break;
+      case 2: st().vec[r].emplace(std::initializer_list<int>{xs[0], xs[1]}, al); break;
+      case 3: st().vec[r].emplace(std::initializer_list<int>{xs[0], xs[1], xs[2]}, al); break;
+      default: st().vec[r].emplace(xs.data(), xs.data() + xs.size(), al); break;
       }
-      else
-      {
-        st().vec[r].emplace(in_it{&xs, 0}, in_it{&xs, xs.size()});
-        st().ref[r] = ref_t(in_it{&xs, 0}, in_it{&xs, xs.size()});
-      }
+      st().ref[r] = ref_t(xs.begin(), xs.end());
     }
     else if (k == "il" && t.size() == 4)
     {
@@ -375,7 +437,7 @@ std::string handle_inner(std::vector<std::string> const &t)
       }
       st().ref[r] = ref_t(xs.begin(), xs.end());
     }
-    else if (k == "move" && t.size() == 4)
+    else if (k == "move" && t.size() == 4 && !with_alloc)
     {
       if (!reg(t[3], NV, s2))
         return "bad-op";
@@ -387,7 +449,7 @@ std::string handle_inner(std::vector<std::string> const &t)
       st().ref[s2].clear();
       return fmt_ret(-1) + " " + show_vec(r) + " " + show_vec(s2) + " " + tail(std_cmp({r, s2}, {}, -1, -1));
     }
-    else if (k == "buf" && t.size() == 4)
+    else if (k == "buf" && t.size() == 4 && !with_alloc)
     {
       std::size_t b = 0;
       if (!reg(t[3], NB, b))
@@ -404,7 +466,7 @@ std::string handle_inner(std::vector<std::string> const &t)
     return fmt_ret(-1) + " " + show_vec(r) + " " + tail(std_cmp({r}, {}, -1, -1));
   }
   bool const vop = op == "push" || op == "pop" || op == "ins1" || op == "insn" || op == "insr" || op == "era1" || op == "erar" ||
-                   op == "resize" || op == "reserve" || op == "shrink" || op == "clear";
+                   op == "resize" || op == "reserve" || op == "shrink" || op == "clear" || op == "set";
   if (vop)
   {
     if (t.size() < 2 || !reg(t[1], NV, r))
@@ -417,7 +479,7 @@ std::string handle_inner(std::vector<std::string> const &t)
     int const *const old_data = v.data();
     std::size_t const old_cap = v.capacity();
     long long ret = -1, rret = -1;
-    bool reserve_op = false, shrink_op = false;
+    bool reserve_op = false, shrink_op = false, no_spec = false;
     std::size_t reserve_n = 0;
     src_t src{};
     auto const src_ok = [&](std::string const &tok) { return parse_src(tok, src); };
@@ -442,7 +504,11 @@ std::string handle_inner(std::vector<std::string> const &t)
         return "bad-op";
       if (!src_valid())
         return "invalid";
-      v.push_back(arg());
+      // a value is passed as a prvalue, an aliased argument as the (lvalue) element itself
+      if (src.slot)
+        v.push_back(arg());
+      else
+        v.push_back(int{src.val});
       ref.push_back(rarg());
     }
     else if (op == "pop" && t.size() == 2)
@@ -459,7 +525,7 @@ std::string handle_inner(std::vector<std::string> const &t)
         return "bad-op";
       if (!src_valid() || pos > sz)
         return "invalid";
-      auto const it = v.insert(v.begin() + pos, arg());
+      auto const it = src.slot ? v.insert(v.begin() + pos, arg()) : v.insert(v.begin() + pos, int{src.val});
       ret = it - v.begin();
       auto const rit = ref.insert(ref.begin() + static_cast<std::ptrdiff_t>(pos), rarg());
       rret = rit - ref.begin();
@@ -472,25 +538,82 @@ std::string handle_inner(std::vector<std::string> const &t)
         return "bad-op";
       if (!src_valid() || pos > sz)
         return "invalid";
-      v.insert(v.begin() + pos, n, arg());
+      if (src.slot)
+        v.insert(v.begin() + pos, n, arg());
+      else
+        v.insert(v.begin() + pos, n, int{src.val});
       ref.insert(ref.begin() + static_cast<std::ptrdiff_t>(pos), n, rarg());
     }
-    else if (op == "insr" && t.size() == 5 && (t[3] == "fwd" || t[3] == "inp"))
+    else if (op == "insr" && t.size() == 5 && range_kind(t[3]))
     {
       std::size_t const pos = static_cast<std::size_t>(vh::to_ull(t[2]));
       std::vector<int> const xs = ints(t[4]);
       if (pos > sz)
         return "invalid";
-      if (t[3] == "fwd")
-      {
-        v.insert(v.begin() + pos, xs.begin(), xs.end());
-        ref.insert(ref.begin() + static_cast<std::ptrdiff_t>(pos), xs.begin(), xs.end());
-      }
+      with_range(t[3], xs, [&](auto const b, auto const e) { v.insert(v.begin() + pos, b, e); });
+      with_range(
+          t[3], xs, [&](auto const b, auto const e) { ref.insert(ref.begin() + static_cast<std::ptrdiff_t>(pos), b, e); });
+    }
+    else if (op == "insr" && t.size() == 6 && t[3] == "self")
+    {
+      // a range of the vector itself.  std::vector forbids it; raw_vector inserts a copy of the range whenever the range lies in
+      // front of the insertion point (`spec`).  Otherwise the result depends on whether it reallocates (the in-place path reads
+      // the range after the shift): still executed and compared with the model (`std=na`) unless source and destination of the
+      // uninitialized_copy would overlap.
+      std::size_t const pos = static_cast<std::size_t>(vh::to_ull(t[2]));
+      std::size_t const a = static_cast<std::size_t>(vh::to_ull(t[4]));
+      std::size_t const b = static_cast<std::size_t>(vh::to_ull(t[5]));
+      if (!(a <= b && b <= sz && pos <= sz))
+        return "invalid";
+      bool const spec = b <= pos;
+      bool const in_place = sz + (b - a) <= old_cap;
+      if (!spec && a != b && in_place && !(pos + (b - a) <= a))
+        return "invalid";
+      std::vector<int> const copy(ref.begin() + static_cast<std::ptrdiff_t>(a), ref.begin() + static_cast<std::ptrdiff_t>(b));
+      v.insert(v.begin() + pos, v.begin() + a, v.begin() + b);
+      if (spec)
+        ref.insert(ref.begin() + static_cast<std::ptrdiff_t>(pos), copy.begin(), copy.end());
       else
       {
-        v.insert(v.begin() + pos, in_it{&xs, 0}, in_it{&xs, xs.size()});
-        ref.insert(ref.begin() + static_cast<std::ptrdiff_t>(pos), in_it{&xs, 0}, in_it{&xs, xs.size()});
+        ref = contents(v);
+        no_spec = true;
       }
+    }
+    else if (op == "set" && t.size() == 5)
+    {
+      // store through the reference the non-const accessor returns
+      std::size_t const i = static_cast<std::size_t>(vh::to_ull(t[3]));
+      int const x = static_cast<int>(vh::to_ll(t[4]));
+      std::string const &how = t[2];
+      if (how == "idx" || how == "it" || how == "data")
+      {
+        if (i >= sz)
+          return "invalid";
+        if (how == "idx")
+          v[i] = x;
+        else if (how == "it")
+          *(v.begin() + i) = x;
+        else
+          v.data()[i] = x;
+        ref[i] = x;
+      }
+      else if ((how == "front" || how == "back") && i == 0)
+      {
+        if (sz == 0)
+          return "invalid";
+        if (how == "front")
+        {
+          v.front() = x;
+          ref.front() = x;
+        }
+        else
+        {
+          v.back() = x;
+          ref.back() = x;
+        }
+      }
+      else
+        return "bad-op";
     }
     else if (op == "era1" && t.size() == 3)
     {
@@ -516,7 +639,10 @@ std::string handle_inner(std::vector<std::string> const &t)
         return "bad-op";
       if (!src_valid())
         return "invalid";
-      v.resize(n, arg());
+      if (src.slot)
+        v.resize(n, arg());
+      else
+        v.resize(n, int{src.val});
       ref.resize(n, rarg());
     }
     else if (op == "reserve" && t.size() == 3)
@@ -541,7 +667,13 @@ std::string handle_inner(std::vector<std::string> const &t)
       return "bad-op";
     bool const moved = v.data() != old_data;
     std::string const reok = shrink_op ? "-" : (moved == (reserve_op ? reserve_n > old_cap : v.size() > old_cap)) ? "1" : "0";
-    return fmt_ret(ret) + " " + show_vec(r) + " reok=" + reok + " " + tail(std_cmp({r}, {}, ret, rret));
+    // policy-independent capacity facts: never shrinks except by shrink_to_fit (which makes it the size), reserve(n) gives >= n;
+    // a capacity that changes at least doubles
+    std::size_t const new_cap = v.capacity();
+    bool const cpok = shrink_op ? new_cap == v.size() : (new_cap >= old_cap && (!reserve_op || new_cap >= reserve_n));
+    std::string const geo = shrink_op ? "-" : (new_cap == old_cap || new_cap >= 2 * old_cap) ? "1" : "0";
+    return fmt_ret(ret) + " " + show_vec(r) + " reok=" + reok + " cpok=" + (cpok ? "1" : "0") + " geo=" + geo + " " +
+           tail(no_spec ? "na" : std_cmp({r}, {}, ret, rret));
   }
   if ((op == "swap" || op == "massign" || op == "cmp") && t.size() == 3)
   {
@@ -565,12 +697,13 @@ std::string handle_inner(std::vector<std::string> const &t)
     }
     else
     {
-      if (r == s2)
-        return "invalid";
-      a = std::move(b);
-      st().ref[r] = std::move(st().ref[s2]);
-      // std::vector leaves the source valid but unspecified: whatever raw_vector left there is acceptable
-      st().ref[s2] = contents(b);
+      a = std::move(b); // r == s2: self-move-assignment
+      if (r != s2)
+      {
+        st().ref[r] = std::move(st().ref[s2]);
+        // std::vector leaves the source valid but unspecified: whatever raw_vector left there is acceptable
+        st().ref[s2] = contents(b);
+      }
     }
     return fmt_ret(-1) + " " + show_vec(r) + " " + show_vec(s2) + " " + tail(std_cmp({r, s2}, {}, -1, -1));
   }
@@ -580,19 +713,85 @@ std::string handle_inner(std::vector<std::string> const &t)
       return "bad-op";
     rv_t &v = *st().vec[r];
     rv_t const &cv = v;
+    // values through the const accessors; `it`: the non-const accessors return references to the same objects, and every
+    // way of obtaining the two ends (const and non-const) agrees
     std::vector<int> idx;
+    bool refs = true;
     for (std::size_t i = 0; i < v.size() && i < 100000; ++i)
-      idx.push_back(i % 2 ? v[i] : cv[i]);
-    std::string const fr = v.empty() ? "-" : std::to_string(v.front() == cv.front() ? v.front() : -1);
-    std::string const bk = v.empty() ? "-" : std::to_string(v.back() == cv.back() ? v.back() : -1);
+    {
+      idx.push_back(cv[i]);
+      refs = refs && &v[i] == v.data() + i && &cv[i] == cv.data() + i;
+    }
+    std::string const fr = v.empty() ? "-" : std::to_string(cv.front());
+    std::string const bk = v.empty() ? "-" : std::to_string(cv.back());
+    if (!v.empty())
+      refs = refs && &v.front() == v.data() && &cv.front() == cv.data() && &v.back() == v.data_end() - 1 &&
+             &cv.back() == cv.data_end() - 1;
+    bool const it = refs && v.begin() == v.data() && cv.begin() == cv.data() && v.end() == v.data_end() &&
+                    cv.end() == cv.data_end() && v.data() == cv.data() && v.data_end() == cv.data_end() &&
+                    static_cast<std::size_t>(v.end() - v.begin()) == v.size() &&
+                    static_cast<std::size_t>(cv.end() - cv.begin()) == cv.size() && v.empty() == (v.size() == 0);
+    bool const al = v.get_allocator() == talloc<int>{};
     return std::string("empty=") + (v.empty() ? "1" : "0") + " size=" + std::to_string(v.size()) + " dist=" +
-           std::to_string(cv.data_end() - cv.data()) + " front=" + fr + " back=" + bk + " idx=" + show_list(idx);
+           std::to_string(cv.data_end() - cv.data()) + " front=" + fr + " back=" + bk + " idx=" + show_list(idx) +
+           " it=" + (it ? "1" : "0") + " al=" + (al ? "1" : "0");
   }
   // ---------------------------------------------------------------- buffer registers
+  if (op == "dynarr" && t.size() == 3)
+  {
+    std::size_t const n = static_cast<std::size_t>(vh::to_ull(t[1]));
+    std::vector<int> const xs = ints(t[2]);
+    if (xs.size() > n)
+      return "invalid";
+    std::string line;
+    std::size_t const live_before = ledger().live.size();
+    {
+      using dyn_t = fcppt::container::dynamic_array<int, talloc<int>>;
+      // odd sizes through the overload that takes the allocator
+      std::optional<dyn_t> holder;
+      if (n % 2 == 1)
+        holder.emplace(n, talloc<int>{});
+      else
+        holder.emplace(n);
+      dyn_t &arr = *holder;
+      dyn_t const &carr = arr;
+      for (std::size_t i = 0; i < xs.size(); ++i)
+        arr.data()[i] = xs[i];
+      // the whole allocation belongs to the array
+      for (int *p = arr.data() + xs.size(); p != arr.data_end(); ++p)
+        *p = -66666;
+      std::vector<int> back;
+      for (int const *p = carr.data(); p != carr.data() + xs.size(); ++p)
+        back.push_back(*p);
+      bool const same = carr.data() == arr.data() && carr.data_end() == arr.data_end();
+      line = "size=" + std::to_string(carr.size()) + " dist=" + (same ? std::to_string(carr.data_end() - carr.data()) : "DIFF") +
+             " vals=" + show_list(back);
+    }
+    return line + " live=" + std::to_string(ledger().live.size() - live_before) + " alloc=" + (ledger().bad ? "BAD" : "ok");
+  }
   std::size_t b = 0, c = 0;
   if (t.size() < 2 || !reg(t[1], NB, b))
     return "bad-op";
+  if (op == "bobs" && t.size() == 2)
+  {
+    buf_t &bu = *st().buf[b];
+    buf_t const &cb = bu;
+    std::vector<int> idx;
+    bool ptr = cb.begin() == cb.read_data() && cb.end() == cb.read_data_end() && bu.write_data() == cb.read_data_end() &&
+               static_cast<std::size_t>(cb.read_data_end() - cb.read_data()) == cb.read_size() &&
+               static_cast<std::size_t>(bu.write_data_end() - bu.write_data()) == cb.write_size() &&
+               cb.get_allocator() == talloc<int>{};
+    for (std::size_t i = 0; i < cb.read_size() && i < 100000; ++i)
+    {
+      idx.push_back(cb[i]);
+      ptr = ptr && &cb[i] == cb.read_data() + i;
+    }
+    return "size=" + std::to_string(cb.read_size()) + " ws=" + std::to_string(cb.write_size()) + " dist=" +
+           std::to_string(cb.read_data_end() - cb.read_data()) + " idx=" + show_list(idx) + " ptr=" + (ptr ? "1" : "0");
+  }
   long long ret = -1;
+  int const *const old_first = st().buf[b]->read_data();
+  bool mv_op = false;
   auto const writer = [](std::vector<int> const &xs) {
     return [&xs](int *const p, std::size_t const n) -> std::size_t {
       for (std::size_t i = 0; i < xs.size() && i < n; ++i)
@@ -600,16 +799,20 @@ std::string handle_inner(std::vector<std::string> const &t)
       return xs.size();
     };
   };
-  if (op == "bctor" && t.size() == 3)
+  if ((op == "bctor" || op == "bactor") && t.size() == 3)
   {
     std::size_t const n = static_cast<std::size_t>(vh::to_ull(t[2]));
     st().buf[b].reset();
-    st().buf[b].emplace(n);
+    if (op == "bactor")
+      st().buf[b].emplace(n, talloc<int>{});
+    else
+      st().buf[b].emplace(n);
     st().brd[b].clear();
     st().bws[b] = n;
   }
   else if (op == "bresize" && t.size() == 3)
   {
+    mv_op = true;
     std::size_t const n = static_cast<std::size_t>(vh::to_ull(t[2]));
     st().buf[b]->resize_write_area(n);
     st().bws[b] = n;
@@ -619,6 +822,7 @@ std::string handle_inner(std::vector<std::string> const &t)
     std::vector<int> const xs = ints(t[2]);
     if (xs.size() > st().bws[b] || st().buf[b]->write_size() != st().bws[b])
       return "invalid";
+    mv_op = true;
     for (std::size_t i = 0; i < xs.size(); ++i)
       st().buf[b]->write_data()[i] = xs[i];
     st().buf[b]->written(xs.size());
@@ -631,6 +835,7 @@ std::string handle_inner(std::vector<std::string> const &t)
     std::vector<int> const xs = ints(t[3]);
     if (xs.size() > n)
       return "invalid";
+    mv_op = true;
     *st().buf[b] = fcppt::container::buffer::append_from(std::move(*st().buf[b]), n, writer(xs));
     st().brd[b].insert(st().brd[b].end(), xs.begin(), xs.end());
     st().bws[b] = n - xs.size();
@@ -638,6 +843,9 @@ std::string handle_inner(std::vector<std::string> const &t)
   else if (op == "bappendopt" && t.size() == 4)
   {
     std::size_t const n = static_cast<std::size_t>(vh::to_ull(t[2]));
+    if (t[3] != "none" && ints(t[3]).size() > n)
+      return "invalid";
+    mv_op = true;
     if (t[3] == "none")
     {
       auto res = fcppt::container::buffer::append_from_opt(
@@ -674,11 +882,49 @@ std::string handle_inner(std::vector<std::string> const &t)
     st().brd[b] = xs;
     st().bws[b] = n - xs.size();
   }
+  else if (op == "breadopt" && t.size() == 4)
+  {
+    std::size_t const n = static_cast<std::size_t>(vh::to_ull(t[2]));
+    if (t[3] == "none")
+    {
+      auto res = fcppt::container::buffer::read_from_opt<buf_t>(
+          n, [](int *, std::size_t) { return fcppt::optional::object<std::size_t>{}; });
+      ret = res.has_value() ? 1 : 0;
+      // nothing was read: the register holds a released buffer
+      buf_t tmp{0U};
+      {
+        rv_t const drop{tmp.release()};
+      }
+      st().buf[b].reset();
+      st().buf[b].emplace(std::move(tmp));
+      st().brd[b].clear();
+      st().bws[b] = 0;
+    }
+    else
+    {
+      std::vector<int> const xs = ints(t[3]);
+      if (xs.size() > n)
+        return "invalid";
+      auto res = fcppt::container::buffer::read_from_opt<buf_t>(n, [&xs](int *const p, std::size_t const m) {
+        for (std::size_t i = 0; i < xs.size() && i < m; ++i)
+          p[i] = xs[i];
+        return fcppt::optional::object<std::size_t>{xs.size()};
+      });
+      ret = res.has_value() ? 1 : 0;
+      st().buf[b].reset();
+      if (res.has_value())
+        st().buf[b].emplace(std::move(res.get_unsafe()));
+      else
+        st().buf[b].emplace(0U);
+      st().brd[b] = xs;
+      st().bws[b] = n - xs.size();
+    }
+  }
   else if ((op == "bmovector" || op == "bswap" || op == "bmassign") && t.size() == 3)
   {
     if (!reg(t[2], NB, c))
       return "bad-op";
-    if (op != "bswap" && b == c)
+    if (op == "bmovector" && b == c)
       return "invalid";
     if (op == "bmovector")
     {
@@ -700,16 +946,20 @@ std::string handle_inner(std::vector<std::string> const &t)
     }
     else
     {
-      *st().buf[b] = std::move(*st().buf[c]);
+      *st().buf[b] = std::move(*st().buf[c]); // b == c: self-move-assignment
       // the moved-from buffer is valid but unspecified: the specification fixes it to the target's old state (swap)
-      st().brd[b].swap(st().brd[c]);
-      std::swap(st().bws[b], st().bws[c]);
+      if (b != c)
+      {
+        st().brd[b].swap(st().brd[c]);
+        std::swap(st().bws[b], st().bws[c]);
+      }
     }
     return fmt_ret(-1) + " " + show_buf(b) + " " + show_buf(c) + " " + tail(std_cmp({}, {b, c}, -1, -1));
   }
   else
     return "bad-op";
-  return fmt_ret(ret) + " " + show_buf(b) + " " + tail(std_cmp({}, {b}, -1, -1));
+  std::string const mv = mv_op ? std::string(" mv=") + (st().buf[b]->read_data() != old_first ? "1" : "0") : "";
+  return fmt_ret(ret) + " " + show_buf(b) + mv + " " + tail(std_cmp({}, {b}, -1, -1));
 }
 
 std::string handle(std::vector<std::string> const &t)
